@@ -103,6 +103,20 @@ static int ep_exempt_n; static char ep_exempt[8][64];
 static int hb_raised[3], last_hb_id = -1, hb0_off;
 static object_t *hb_ob[3];
 
+/* finding keys of the service oracles name the class of plan under which they fired */
+static const char *plan_tag (void) {
+  static char t[48];
+  if (P.kind != K_NONE) snprintf (t, sizeof t, "after-%s-error", kind_name[P.kind]);
+  else if (P.hostile[0]) snprintf (t, sizeof t, "after-%s%s", P.hostile, P.hret ? "" : "-ret0");
+  else snprintf (t, sizeof t, "no-fault");
+  return t;
+}
+static char *keyf (const char *base) {
+  static char k[4][120]; static int i;
+  char *b = k[i++ & 3];
+  snprintf (b, 120, "%s:%s", base, plan_tag ());
+  return b;
+}
 static void fail_hist (const char *key, const char *fmt, ...) {
   char msg[500]; va_list ap; va_start (ap, fmt); vsnprintf (msg, sizeof msg, fmt, ap); va_end (ap);
   vx_fail (key, "%s", msg);
@@ -415,7 +429,7 @@ static void check_last_tick (void) {
     int beat = name_in (tag, cyc_hb, cyc_nhb);
     if (hb_raised[k] && beat) fail_hist ("C09:failed-heart-beat-still-called", "heart-beat object %d raised an error earlier but was called again in the last tick", k);
     if (!hb_raised[k] && !beat && !(k == 0 && hb0_off))
-      fail_hist ("C09:healthy-heart-beat-not-called", "heart-beat object %d never failed but was not called in the last tick (plan kind=%s pos=%d)", k, kind_name[P.kind], P.pos);
+      fail_hist (keyf ("C09:healthy-heart-beat-not-called"), "heart-beat object %d never failed but was not called in the last tick (plan kind=%s pos=%d)", k, kind_name[P.kind], P.pos);
     if (hb_ob[k] && hb_raised[k] && query_heart_beat (hb_ob[k]))
       fail_hist ("C09:failed-heart-beat-still-on", "heart-beat object %d raised an error but query_heart_beat() is %d", k, query_heart_beat (hb_ob[k]));
   }
@@ -425,8 +439,8 @@ static void check_last_tick (void) {
     if (strncmp (o->name, "/c09/user", 9) && strncmp (o->name, "/c09/npc", 8)) continue;
     if (!o->setup || o->gone || o->hboff) continue;
     object_t *ob = find_object_by_name (o->name + 1);
-    if (!ob || (ob->flags & O_DESTRUCTED)) { fail_hist ("C09:object-vanished", "%s completed logon and was never destructed by the mudlib, but no longer exists", o->name); continue; }
-    if (!name_in (o->name, cyc_hb, cyc_nhb)) fail_hist ("C09:healthy-heart-beat-not-called", "%s has its heart beat on but was not called in the last tick", o->name);
+    if (!ob || (ob->flags & O_DESTRUCTED)) { fail_hist (keyf ("C09:object-vanished"), "%s completed logon and was never destructed by the mudlib, but no longer exists", o->name); continue; }
+    if (!name_in (o->name, cyc_hb, cyc_nhb)) fail_hist (keyf ("C09:healthy-heart-beat-not-called"), "%s has its heart beat on but was not called in the last tick", o->name);
   }
 }
 
@@ -441,12 +455,12 @@ static void final_oracle (void) {
     if (!c->used || !c->accepted || c->peer_closed) continue;
     if (!cli_healthy[i]) continue;
     if (name_in (cli_ob[i], ep_exempt, ep_exempt_n)) continue;
-    if (c->driver_closed) { fail_hist ("C09:healthy-user-disconnected", "client %d (%s) never hung up and was never destructed, but the driver closed its connection", i, cli_ob[i]); continue; }
+    if (c->driver_closed) { fail_hist (keyf ("C09:healthy-user-disconnected"), "client %d (%s) never hung up and was never destructed, but the driver closed its connection", i, cli_ob[i]); continue; }
     if (!nl_out_contains (c, cli_mark[i], "pong")) {
       char tail[80]; size_t m = c->out_len - cli_mark[i]; if (m > 60) m = 60;
       int k = 0; for (size_t j = 0; j < m; j++) { unsigned char ch = c->out[cli_mark[i] + j]; k += snprintf (tail + k, sizeof tail - (size_t) k - 1, (ch >= 32 && ch < 127) ? "%c" : ".", ch); if (k > 70) break; }
       tail[k] = 0;
-      fail_hist ("C09:user-not-served", "client %d (%s) sent ping in the epilogue and got no pong (got \"%s\")", i, cli_ob[i], tail);
+      fail_hist (keyf ("C09:user-not-served"), "client %d (%s) sent ping in the epilogue and got no pong (got \"%s\")", i, cli_ob[i], tail);
     }
   }
   if (P.console && all_users && all_users[0] && all_users[0]->ob) {
@@ -454,13 +468,13 @@ static void final_oracle (void) {
     obrec *o = ob_rec (nm);
     if (o->setup && !o->gone && !name_in (nm, ep_exempt, ep_exempt_n)) {
       if (!env_console_out || !memmem (env_console_out + con_mark, env_console_out_len - con_mark, "pong", 4))
-        fail_hist ("C09:console-user-not-served", "console user %s sent ping in the epilogue and got no pong", nm);
+        fail_hist (keyf ("C09:console-user-not-served"), "console user %s sent ping in the epilogue and got no pong", nm);
     }
   }
   /* call_outs that were pending at the start of the epilogue and due within it have fired */
   for (int k = 0; k < 3; k++)
     if (co_left0[k] >= 0 && co_left0[k] <= 4 && !co_fired[k])
-      fail_hist ("C09:pending-call_out-not-fired", "call_out chain %d had %d s left when the epilogue started (5 s long) and never fired", k, co_left0[k]);
+      fail_hist (keyf ("C09:pending-call_out-not-fired"), "call_out chain %d had %d s left when the epilogue started (5 s long) and never fired", k, co_left0[k]);
 }
 
 /* ------------------------------------------------------------------ body */
